@@ -190,6 +190,12 @@ def gen_cases(rng, tier):
         cases.append(["conn%d" % j, "c16", "conn", "in" if incoming else "out", ";".join(g + tail)])
     for j, g in enumerate(("frame,close", "close", "clone,frame,close;adv:100", "garbage", "frame,garbage;adv:5", "frame;adv:31000;close", "select,close", "frame,frame,close;select")):
         cases.append(["connx%d" % j, "c16", "conn", "out", g + ";drop,drop,drop,drop;adv:70000"])
+    # an outgoing connection whose socket reports another peer address than the one that was dialled (a wildcard target, a factory that goes
+    # through a fixed proxy), and connections accepted long after the listener started: no entry is left either
+    for j, g in enumerate(("frame", "frame;adv:100;frame", "clone,frame;adv:31000;frame", "adv:5", "frame,close", "select;frame")):
+        cases.append(["conna%d" % j, "c16", "conn", "outalias", g + ";drop,drop,drop,drop;adv:70000"])
+    for j, g in enumerate(("frame", "adv:100;frame;adv:20000;frame", "adv:5")):
+        cases.append(["connl%d" % j, "c16", "conn", "in@40000", g + ";adv:70000"])
     # client transactions whose final response is replayed by the peer (lost ACKs, or a peer that keeps sending it): the entry is gone
     # when the transaction's own timer has run out (timer D / K counted once from the first final), replays do not hold it
     P05 = importlib.import_module("props.c05")
